@@ -37,6 +37,9 @@ pub enum Op {
     /// RPUSH key e and LPOP key pipelined in one write by the same client
     Batch { c: usize, key: usize },
     Wait { ms: u32 },
+    /// keeps the single-threaded server busy (the SLEEP test command on the control connection):
+    /// every deadline that passes meanwhile is met by one and the same timeout sweep
+    Stall { ms: u32 },
     Disconnect { c: usize },
 }
 
@@ -55,13 +58,32 @@ fn op() -> BoxedStrategy<Op> {
         2 => (0..NCLIENTS, 0..3usize, any::<bool>()).prop_map(|(c, key, right)| Op::Pop { c, key, right }),
         1 => (0..NCLIENTS, 0..3usize).prop_map(|(c, key)| Op::Batch { c, key }),
         1 => prop_oneof![Just(30u32), Just(120u32), Just(450u32)].prop_map(|ms| Op::Wait { ms }),
+        1 => prop_oneof![Just(300u32), Just(700u32)].prop_map(|ms| Op::Stall { ms }),
         1 => (0..NCLIENTS).prop_map(|c| Op::Disconnect { c }),
     ]
     .boxed()
 }
 
+/// Two (or three) clients whose deadlines fall into the same stall, with a client that waits
+/// for ever queued behind them on the same key.
+fn expiring_group() -> BoxedStrategy<Vec<Op>> {
+    (0..3usize, any::<bool>(), prop_oneof![Just(400u32), Just(1000u32)], 0..NCLIENTS, any::<bool>())
+        .prop_map(|(key, right, t, first, three)| {
+            let c = |i: usize| (first + i) % NCLIENTS;
+            let mut v = vec![Op::Block { c: c(0), right, keys: vec![key], timeout_ms: t }, Op::Block { c: c(1), right: !right, keys: vec![key], timeout_ms: t }];
+            if three {
+                v.push(Op::Block { c: c(2), right, keys: vec![key, (key + 1) % 3], timeout_ms: t });
+            }
+            v.push(Op::Block { c: c(3), right, keys: vec![key], timeout_ms: 0 });
+            v.push(Op::Stall { ms: t + 300 });
+            v.push(Op::Push { c: c(0), right: true, key, n: 1, via: 0 });
+            v
+        })
+        .boxed()
+}
+
 fn history(max_len: usize) -> BoxedStrategy<Vec<Op>> {
-    proptest::collection::vec(op(), 3..=max_len).boxed()
+    proptest::collection::vec(prop_oneof![12 => op().prop_map(|o| vec![o]), 1 => expiring_group()], 3..=max_len).prop_map(|v| v.into_iter().flatten().collect()).boxed()
 }
 
 struct Blocked {
@@ -418,6 +440,22 @@ fn run_history(server: &mut Server, ops: &[Op]) -> CaseResult {
                     s.settle(Duration::ZERO)?;
                     s.expect_silence(&after)?;
                 }
+                Op::Stall { ms } => {
+                    let expiring = (0..NCLIENTS).filter(|c| s.blocked[*c].as_ref().map_or(false, |b| b.timeout.map_or(false, |t| b.t_send + t < Instant::now() + Duration::from_millis(*ms as u64)))).count();
+                    if expiring >= 2 {
+                        s.labels.insert("several-deadlines-in-one-sweep");
+                    }
+                    let saved = s.ctl.default_timeout;
+                    s.ctl.default_timeout = Duration::from_millis(*ms as u64 + 5000);
+                    let r = s.ctl.cmd(&[b"SLEEP".to_vec(), ms.to_string().into_bytes()]);
+                    s.ctl.default_timeout = saved;
+                    if !matches!(r, Reply::Frame(Frame::Simple(_))) {
+                        return fail("infra", format!("SLEEP -> {:?}", r));
+                    }
+                    s.barrier()?;
+                    s.settle(Duration::ZERO)?;
+                    s.expect_silence(&after)?;
+                }
                 Op::Disconnect { c } => {
                     if s.blocked[*c].is_some() {
                         s.labels.insert("disconnect-while-blocked");
@@ -511,6 +549,7 @@ fn op2j(o: &Op) -> Value {
         Op::Pop { c, key, right } => json!({"op": "pop", "c": c, "key": key, "right": right}),
         Op::Batch { c, key } => json!({"op": "batch", "c": c, "key": key}),
         Op::Wait { ms } => json!({"op": "wait", "ms": ms}),
+        Op::Stall { ms } => json!({"op": "stall", "ms": ms}),
         Op::Disconnect { c } => json!({"op": "disconnect", "c": c}),
     }
 }
@@ -524,6 +563,7 @@ fn j2op(v: &Value) -> Option<Op> {
         "pop" => Op::Pop { c: u("c") % NCLIENTS, key: u("key") % 3, right: b("right") },
         "batch" => Op::Batch { c: u("c") % NCLIENTS, key: u("key") % 3 },
         "wait" => Op::Wait { ms: u("ms") as u32 },
+        "stall" => Op::Stall { ms: u("ms") as u32 },
         "disconnect" => Op::Disconnect { c: u("c") % NCLIENTS },
         _ => return None,
     })
@@ -672,7 +712,7 @@ pub fn run(tier: Tier, seed: u64, replay: Option<Value>) -> i32 {
         tier,
         seed,
         "exploration",
-        "A: generated histories (3..25 operations) of four clients over three lists: BLPOP/BRPOP on 1-3 keys with timeout forever/0.06/0.2/0.4/1 s, LPUSH/RPUSH of 1, 2 or 4 unique elements sent directly, inside MULTI/EXEC or from a script, LPOP/RPOP, a pipelined RPUSH+LPOP batch, waits, and disconnects of blocked clients; operations are sequenced (two PING round trips on a control connection after each), finite deadlines nearer than 150 ms are waited out before the next operation, so a reference model of Redis' blocking semantics decides every reply: served first-blocked-first with the head (BLPOP) or tail (BRPOP) of the first non-empty key, within 4 s; nil never before the timeout on the harness clock and within 4 s after it; never nil for an infinite wait; nothing for a client to whom nothing is due; LRANGE of every list equals pushed minus delivered after every step; wind-down: all waiters are served by pushes, later pushes stay in their lists, every client answers PING, a later BLPOP runs its full timeout. B: unsequenced bursts (3 pushers, 5 blocking poppers, one of which disconnects while blocked) with the schedule-independent oracle only: no element delivered twice or invented, at most one element unaccounted for per disconnect. Non-trivial (A) = a client actually blocked and was served by a later push, timed out, registered on several keys, shared a multi-element push with another waiter, or disconnected while blocked; distinct by hash of the history",
+        "A: generated histories (3..25 operations) of four clients over three lists: BLPOP/BRPOP on 1-3 keys with timeout forever/0.06/0.2/0.4/1 s, LPUSH/RPUSH of 1, 2 or 4 unique elements sent directly, inside MULTI/EXEC or from a script, LPOP/RPOP, a pipelined RPUSH+LPOP batch, waits, stalls of the single-threaded server (so that several deadlines are met by one timeout sweep), and disconnects of blocked clients; operations are sequenced (two PING round trips on a control connection after each), finite deadlines nearer than 150 ms are waited out before the next operation, so a reference model of Redis' blocking semantics decides every reply: served first-blocked-first with the head (BLPOP) or tail (BRPOP) of the first non-empty key, within 4 s; nil never before the timeout on the harness clock and within 4 s after it; never nil for an infinite wait; nothing for a client to whom nothing is due; LRANGE of every list equals pushed minus delivered after every step; wind-down: all waiters are served by pushes, later pushes stay in their lists, every client answers PING, a later BLPOP runs its full timeout. B: unsequenced bursts (3 pushers, 5 blocking poppers, one of which disconnects while blocked) with the schedule-independent oracle only: no element delivered twice or invented, at most one element unaccounted for per disconnect. Non-trivial (A) = a client actually blocked and was served by a later push, timed out, registered on several keys, shared a multi-element push with another waiter, or disconnected while blocked; distinct by hash of the history",
     ));
     let mk = |_: usize| Server::start(ServerOpts::default());
     if let Some(r) = replay {
@@ -717,7 +757,7 @@ pub fn run(tier: Tier, seed: u64, replay: Option<Value>) -> i32 {
             }
         };
     }
-    let cfg = LoopCfg { cases: tier.pick(700, 15000), workers: 12, max_shrink_execs: 80, max_violations: std::env::var("FVH_MAX_VIOL").ok().and_then(|s| s.parse().ok()).unwrap_or(8) };
+    let cfg = LoopCfg { cases: tier.pick(450, 15000), workers: 12, max_shrink_execs: 80, max_violations: std::env::var("FVH_MAX_VIOL").ok().and_then(|s| s.parse().ok()).unwrap_or(8) };
     let max_len = tier.pick(25, 40);
     crate::driver::run_cases(&ev, &cfg, || history(max_len), mk, |s, ops: &Vec<Op>| run_history(s, ops), |ops| json!({"ops": ops.iter().map(op2j).collect::<Vec<_>>()}));
     {
